@@ -105,6 +105,65 @@ impl LexerHelper {
 
 
 // ---------------------------------------------------------------------------------------------------------------------------
+// LexerHelper::new, verbatim (rewrite R16), for texts of ANY length and ANY characters.  ASSUMED: std's contract of
+// str::char_indices / str::len (the k-th item is the byte offset and the value of the k-th character; offsets are strictly
+// increasing and inside the text; a text is at most isize::MAX bytes).  The bounded Kani unit b_lexer_new runs the real std code on
+// 31 strings with 1-, 2- and 3-byte characters (cross-check of exactly this assumption).
+pub mod verif_ci {
+    use vstd::prelude::*;
+    pub uninterp spec fn n(s: &str) -> nat;                 // number of characters
+    pub uninterp spec fn off(s: &str, k: int) -> usize;     // byte offset of character k
+    pub uninterp spec fn chr(s: &str, k: int) -> char;      // character k
+    pub uninterp spec fn blen(s: &str) -> usize;            // length in bytes
+    #[verifier::external_body]
+    pub broadcast proof fn axiom_offsets(s: &str, j: int, k: int)
+        ensures 0 <= j < k < n(s) ==> #[trigger] off(s, j) < #[trigger] off(s, k),
+    {}
+    #[verifier::external_body]
+    pub broadcast proof fn axiom_inside(s: &str, k: int)
+        ensures 0 <= k < n(s) ==> #[trigger] off(s, k) < blen(s),
+    {}
+    #[verifier::external_body]
+    pub broadcast proof fn axiom_len(s: &str)
+        ensures #[trigger] blen(s) <= isize::MAX as usize, n(s) <= blen(s),
+    {}
+    #[verifier::external_body]
+    pub fn char_count(s: &str) -> (r: usize) ensures r == n(s), { s.chars().count() }
+    #[verifier::external_body]
+    pub fn char_at(s: &str, k: usize) -> (r: (usize, char)) requires k < n(s), ensures r == (off(s, k as int), chr(s, k as int)), { s.char_indices().nth(k).unwrap() }
+    #[verifier::external_body]
+    pub fn byte_len(s: &str) -> (r: usize) ensures r == blen(s), { s.len() }
+}
+//@broadcast verif_ci::axiom_offsets, verif_ci::axiom_inside, verif_ci::axiom_len
+/// byte offsets of the newline characters among the first k characters, in order
+pub open spec fn nl_prefix(s: &str, k: int) -> Seq<usize>
+    decreases k
+{
+    if k <= 0 { Seq::empty() } else if verif_ci::chr(s, k - 1) == '\n' { nl_prefix(s, k - 1).push(verif_ci::off(s, k - 1)) } else { nl_prefix(s, k - 1) }
+}
+impl LexerHelper {
+    // #[derive(Default)] (dropped by R5): every field is its type's default
+    #[verifier::external_body]
+    pub fn default() -> (r: LexerHelper) ensures r.v_list() == Seq::<usize>::empty(), r.v_len() == 0, { LexerHelper { temp_line: 0, newline_list: Vec::new(), input_len: 0 } }
+
+//@fn src/lib/preprocessor/lexer_helper.rs new as new_real
+//@contract
+//@charindices
+        ensures
+            r.v_list() == nl_prefix(input, verif_ci::n(input) as int),      //# C16 lexer.new.list_is_the_byte_offsets_of_the_newline_characters_in_order
+            r.v_len() == verif_ci::blen(input),                              //# C16 lexer.new.input_len_is_the_byte_length
+            r.wf(),                                                          //# C16 lexer.new.establishes_the_helper_invariant
+//@loop 0
+            invariant
+                l.input_len == 0,
+                l.newline_list@ == nl_prefix(input, verif_k as int),
+                forall|a: int, b: int| 0 <= a < b < l.newline_list@.len() ==> l.newline_list@[a] < l.newline_list@[b],
+                forall|a: int| 0 <= a < l.newline_list@.len() ==> l.newline_list@[a] < (if verif_k < verif_ci::n(input) { verif_ci::off(input, verif_k as int) } else { verif_ci::blen(input) }),
+//@end
+//@end
+}
+
+// ---------------------------------------------------------------------------------------------------------------------------
 // preprocess() of src/driver/preprocess.rs, verbatim: which position a syntax / semantic diagnostic looks up (C16: "reports the
 // line number, column and text of the line containing the offending token").  The assembler, its context and the helper's
 // construction are stubs that record, in a ghost trace, the position of the token the assembler refused and the newline list
@@ -142,7 +201,7 @@ impl Preprocessor {
     { unimplemented!() }
 }
 impl LexerHelper {
-    // ASSUMED (bounded Kani unit b_lexer_new): the helper holds the increasing byte positions of the newlines of the text
+    // stub with a ghost argument for preprocess(); its contract is the one PROVED of the real `new` above (extracted as new_real)
     #[verifier::external_body]
     pub fn new(input: &str, Tracked(tr): Tracked<&mut Trace>) -> (r: LexerHelper)
         ensures r.wf(), final(tr).nl == r.v_list(), final(tr).refused_at == old(tr).refused_at, input@.len() <= r.v_len(),
